@@ -23,6 +23,7 @@ ASSUMPTIONS = [
     "NPA level 2 only for games with at most 36 answer-question pairs per player product (cost)",
 ]
 TOL = 2e-4
+SOLVER_TIME_LIMIT = 300
 CASE_TIMEOUT = {"quick": 600, "thorough": 1800}
 
 
